@@ -545,17 +545,44 @@ theorem round_eq (cfg : Cfg) (a : A) (r : Round) (evs : List Ev) :
   unfold round roundPre
   rw [← roundBody_snd cfg a r evs]
 
+/-- the abstract state after clock, socket failures and the accepted connection — the writable set is still the one the
+    previous poll left -/
+def roundAcc (a : A) (r : Round) : A :=
+  let a : A := { a with now := a.now + r.dt,
+                        fail := (r.failSet.filter (·.1 ≤ a.nAccepted)).foldl (fun fl (p : Nat × Option FailMode) => setFail fl p.1 p.2) a.fail }
+  if r.accept then { a with nAccepted := a.nAccepted + 1, mods := a.mods ++ [{ uid := a.nAccepted + 1 }] } else a
+
+/-- the writable set this round's poll leaves -/
+def roundW (a : A) (r : Round) : List Nat :=
+  let a : A := { a with now := a.now + r.dt,
+                        fail := (r.failSet.filter (·.1 ≤ a.nAccepted)).foldl (fun fl (p : Nat × Option FailMode) => setFail fl p.1 p.2) a.fail }
+  let liveBefore := (a.mods.filter (·.alive)).map (·.uid)
+  let reads := r.reads.filter (fun rd => liveBefore.contains rd.uid)
+  let a := if r.accept then { a with nAccepted := a.nAccepted + 1, mods := a.mods ++ [{ uid := a.nAccepted + 1 }] } else a
+  let live := (a.mods.filter (·.alive)).map (·.uid)
+  if r.accept || !reads.isEmpty then (if reads.isEmpty then [] else r.writable.filter (live.contains ·)) else a.w
+
+theorem roundEnv_eq (a : A) (r : Round) : roundEnv a r = { roundAcc a r with w := roundW a r } := by
+  unfold roundEnv roundAcc roundW
+  dsimp only
+  split <;> rfl
+
+/-- the state the stretch before the first frame read is judged in: the accept branch runs before this round's poll; when
+    no frame is read the stretch also holds the periodic section (after the poll): ready = ready by both polls -/
+def roundPreSt (a : A) (r : Round) (segs : List (Nat × List Ev)) : A :=
+  if segs.isEmpty then { roundAcc a r with w := (roundAcc a r).w.filter ((roundW a r).contains ·) } else roundAcc a r
+
 theorem roundPre_eq (cfg : Cfg) (a : A) (r : Round) (evs : List Ev) :
     roundPre cfg a r evs =
-      (let a3 := roundEnv a r
-       let reads := roundReads a r
+      (let reads := roundReads a r
        let pre := (splitRd evs).1
        let segs := (splitRd evs).2
-       let a := a3.chk ((closes pre).isEmpty || !(wfails pre).isEmpty) "C07" "a connection was closed before any frame was read in this round"
-       let a := applyDepartures (checkDepartures cfg (checkNoticeOrigin cfg a none pre) none pre) pre
+       let aP := (roundPreSt a r segs).chk ((closes pre).isEmpty || !(wfails pre).isEmpty) "C07" "a connection was closed before any frame was read in this round"
+       let aP := applyDepartures (checkDepartures cfg (checkNoticeOrigin cfg aP none pre) none pre) pre
+       let a : A := { aP with w := roundW a r }
        let a := roundBody.go cfg a reads segs (reads.length + segs.length + 1)
        if segs.isEmpty then a else (pre :: (segs.dropLast.map (·.2))).foldl (noteMgrFrames cfg) a) := by
-  unfold roundPre roundBody roundEnv roundReads
+  unfold roundPre roundBody roundPreSt roundAcc roundW roundReads
   rcases splitRd evs with ⟨pre, segs⟩
   rfl
 
@@ -566,14 +593,28 @@ def roundCore (cfg : Cfg) (a : A) (r : Round) (evs : List Ev) : A :=
   let a := goCore cfg (applyDepartures (roundEnv a r) pre) (roundReads a r) segs
   if segs.isEmpty then a else (pre :: (segs.dropLast.map (·.2))).foldl (noteMgrFrames cfg) a
 
+theorem q18_setW {a b : A} (h : Q18 a b) (w : List Nat) : Q18 ({ a with w := w } : A) ({ b with w := w } : A) := by
+  obtain ⟨h1, h2⟩ := h
+  refine ⟨?_, h2⟩
+  have : ({ b with w := w } : A).noErr = ({ b.noErr with w := w } : A) := rfl
+  rw [this, h1]; rfl
+
+theorem applyDepartures_setW (a : A) (w : List Nat) (evs : List Ev) :
+    applyDepartures ({ a with w := w } : A) evs = ({ applyDepartures a evs with w := w } : A) := by
+  rw [applyDepartures_eq, applyDepartures_eq]
+
 theorem q18_roundPre (cfg : Cfg) (a : A) (r : Round) (evs : List Ev) : Q18 (roundCore cfg a r evs) (roundPre cfg a r evs) := by
   rw [roundPre_eq]
   unfold roundCore
   dsimp only
-  have h5 : Q18 (applyDepartures (roundEnv a r) (splitRd evs).1)
-      (applyDepartures (checkDepartures cfg (checkNoticeOrigin cfg ((roundEnv a r).chk ((closes (splitRd evs).1).isEmpty || !(wfails (splitRd evs).1).isEmpty) "C07"
+  have hst : ({ roundPreSt a r (splitRd evs).2 with w := roundW a r } : A) = roundEnv a r := by
+    rw [roundEnv_eq]; unfold roundPreSt; split <;> rfl
+  have h4 : Q18 (applyDepartures (roundPreSt a r (splitRd evs).2) (splitRd evs).1)
+      (applyDepartures (checkDepartures cfg (checkNoticeOrigin cfg ((roundPreSt a r (splitRd evs).2).chk ((closes (splitRd evs).1).isEmpty || !(wfails (splitRd evs).1).isEmpty) "C07"
         "a connection was closed before any frame was read in this round") none (splitRd evs).1) none (splitRd evs).1) (splitRd evs).1) :=
     q18_dep (Q18.checkDepartures ((q18_chk _ _ _ _ rfl).trans (q18_checkNoticeOrigin _ _ _ _)) _ _ _) _
+  have h5 := q18_setW h4 (roundW a r)
+  rw [← applyDepartures_setW, hst] at h5
   have h6 := q18_go cfg (roundReads a r) _ _ (splitRd evs).2 ((roundReads a r).length + (splitRd evs).2.length + 1) h5 (by omega)
   split
   · exact h6
